@@ -36,7 +36,7 @@ TRUSTED_BASE = [
     "props/C16.py to_case(): numbering of nodes/handles of the monitor log, translation to Coq cases",
 ]
 
-FILES = ["vh_common_test.go", "vhgate_backend_test.go", "c16_workload_test.go"]
+FILES = ["vh_common_test.go", "vhgate_backend_test.go", "c16_workload_test.go", "c16_queued_test.go"]
 HEADER = ("From Coq Require Import String List Bool NArith.\nFrom P9V Require Import Locks.Sym Locks.LockCases.\nImport ListNotations.\nOpen Scope string_scope.\nOpen Scope N_scope.\n")
 
 
@@ -135,7 +135,10 @@ def run(ctx):
             ctx.violation("C16:leak:%s" % o["name"], "%d File(s) were never closed after the connection went away (references taken for a rename notification leaked): %s" % (o["unclosed"], o["what"]), o)
     if st and not st[0]["answered"]:
         ctx.violation("C16:stall", "a request on another fid was not answered (3 x 1.1 s) while the backend held the Close of a Tclunk on the same connection", st[0])
-    if rc == 0 and (not st or not rd or len(pr) < 6):
+    qw = [o for o in pr if o["name"].startswith("queued-writer:")]
+    if qw and not any(o.get("writer_queued") for o in qw):
+        ctx.harness_broken("queued-writer probes: no writer was ever seen queuing for the rename lock (white-box TryRLock observation broken?)", str(qw))
+    if rc == 0 and (not st or not rd or len(pr) < 9):
         ctx.harness_broken("targeted probes did not all report (stall=%d renamedisc=%d probes=%d)" % (len(st), len(rd), len(pr)), out)
     mp = [o for o in obs4 if o.get("kind") == "mapper"]
     if "concurrent map" in out4 or "DATA RACE" in out4 or (mp and not mp[0]["consistent"]):
